@@ -9,15 +9,19 @@ MAILBOX_NOTE = ("TLC is exhaustive only for the listed constants (2 clients, <=2
                 "by harness/sim.py + FakeWS; harness/mbserver.py stands for a conformant server")
 
 CHECKS = {
-    "C01": ("Wormhole.tla + Crypto.tla: TLC checks KeyAgreement / VerifiedImpliesSameCode / MismatchSilent over all code and appid "
+    "C01": ("Wormhole.tla + Crypto.tla: TLC checks KeyAgreement / VerifiedImpliesSameCode / MismatchSilent / MismatchNotHappy over all code and appid "
             "pairs of the model and all arrival orders; behaviours are replayed on two real wormholes (real SPAKE2) and "
             "MailboxObs.tla P_KeyAgree decides on the recorded executions", "2.1, 3/C01"),
     "C02": ("TLC checks NoForgery under every single tamper/inject operation of the symbolic adversary; each is executed on real "
             "bytes (relabel, reflect, bit flip, cross-phase) and the TLA+ observer decides", "3/C02"),
     "C03": ("TLC checks InOrderOnce under dup/swap/drop on the extracted tables; spec behaviours are replayed on real wormholes, "
-            "random real schedules are validated against WormholeTrace.tla, the TLA+ observer decides", "3/C03"),
+            "random real schedules are validated against WormholeTrace.tla, the TLA+ observer decides; Notify.tla (the notification "
+            "layer: SequenceObserver / OneShotObserver / EventualQueue under a Deferred-mode application) is model-checked, bound both "
+            "ways to the real objects and judged by NotifyObs.tla (MsgFIFO, FireOrder, AtRest)", "3/C03, 7.2"),
     "C08": ("TLC checks ClosedOnce / NothingAfter / VerdictRight / ServerFreedAtClose with close() enabled in every reachable "
-            "state; replayed on real wormholes with the server twin's tables inspected at the closed notification", "3/C08"),
+            "state; replayed on real wormholes with the server twin's tables inspected at the closed notification; Notify.tla / "
+            "NotifyObs.tla decide the part of the statement that lives in _DeferredWormhole (every close() Deferred carries the verdict, "
+            "once; nothing is retrievable afterwards)", "3/C08, 7.2"),
     "C09": ("TLC checks InOrderOnce / OnceEach with a connection drop or an aborted reconnect at every step; real executions whose "
             "environment was benign (drops, aborted reconnects, duplicates, reorderings) must reach the goal (key established, every "
             "message delivered) after a fair completion; arrival-permutation and un-echoed-resubmission families", "3/C09"),
@@ -25,7 +29,11 @@ CHECKS = {
             "frames, third participant, failed connection, input/allocate flows); every counterexample is replayed on the real "
             "code before it counts", "3/C14"),
     "C18": ("TLC checks OnceEach / CausalOrder / VersionsFirst; the TLA+ observer evaluates the same operators plus late "
-            "get_*() outcomes on real executions in both API flavours", "3/C18"),
+            "get_*() outcomes on real executions in both API flavours; Notify.tla models the notification layer itself (the seven "
+            "observers of _DeferredWormhole, OneShotObserver / SequenceObserver / EmptyableSet over the EventualQueue, an application "
+            "acting re-entrantly from its callbacks): TLC checks ten invariants, an action property and two liveness properties, "
+            "simulated behaviours are replayed on the real objects, random walks over the real objects are validated by TLC, "
+            "NotifyObs.tla decides on every recorded execution", "3/C18, 7.2"),
     "C04": ("FileXfer.tla: TLC checks BothOkExact / CutBeforeAllFails / SenderNeedsGoodAck / BadAckFails / DestOnlyWhenComplete "
             "(+ termination) for payloads of 0..3 records under every fault; every distinct fault signature of its behaviours is "
             "executed with the real `wormhole send` and `wormhole receive` commands on the simulated reactor (files around the "
